@@ -3,7 +3,8 @@ CONSTANT NtCVersions = {9, 10, 11, 12, 13, 14, 15, 16, 17, 18, 19, 20, 21}
 CONSTANT DMQVersions = {1}
 CONSTANT ExtraIds = {1, 11, 12, 13, 16, 17, 21, 99, 1000, 32767}
 CONSTANT Design = "fixed"
-CONSTANT LocalOptSpace = "all"
+CONSTANT LkaOffKinds = {"ntn", "ntc", "dmq"}
+CONSTANT LkaOffFull = TRUE
 INIT Init
 NEXT Next
 INVARIANT TypeOK
